@@ -6,6 +6,7 @@ import (
 	"bytes"
 	"context"
 	"fmt"
+	"github.com/PowerDNS/lightningstream/utils/verifhook"
 	"sort"
 	"strings"
 	"sync"
@@ -381,9 +382,29 @@ func runStatic(p c06Params, env *runner.Env, res *runner.Result, label string) {
 				return nil
 			})
 		}
+		// an application commit lands after SendOnce was called and before its LMDB transaction begins: the image
+		// contains it, so the time the snapshot claims (name, metadata, capture stamps) cannot lie before that commit
+		lateKey := []byte(fmt.Sprintf("zzlate%02d", d))
+		var lateBegin time.Time
+		lateDone := false
+		verifhook.Set(func(instance, point, detail string) {
+			if point != "send.before_txn" || lateDone {
+				return
+			}
+			lateDone = true
+			time.Sleep(2 * time.Millisecond)
+			lateBegin = time.Now()
+			_, _ = lmdbx.Update(x.Env, func(txn *lmdb.Txn) error {
+				if p.Native {
+					return inst.NativePut(txn, "d0", lateKey, uint64(time.Now().UnixNano()), false, []byte("late"))
+				}
+				return lmdbx.Put(txn, "d0", 0, lateKey, []byte("late"))
+			})
+		})
 		t0 := time.Now()
 		blobName, _, err := x.Send(ctx)
 		t1 := time.Now()
+		verifhook.Set(nil)
 		wit := map[string]any{"params": p, "dump": d}
 		if err != nil {
 			sig := "sendonce-error"
@@ -402,6 +423,24 @@ func runStatic(p c06Params, env *runner.Env, res *runner.Result, label string) {
 			return
 		}
 		compareSnap(res, s, exp, wit, fmt.Sprintf("dump %d", d))
+		if lateDone {
+			for _, dd := range s.DBIs {
+				if dd.Name != "d0" {
+					continue
+				}
+				for _, e := range dd.Entries {
+					if string(e.Key) == string(lateKey) {
+						res.Count("commits_between_call_and_transaction_found_in_image", 1)
+						if s.Meta.TimestampNano < uint64(lateBegin.UnixNano()) {
+							res.Violate("snapshot-time-before-contained-commit", fmt.Sprintf("the snapshot contains d0[%s], committed not before %d, but claims the time %d (%v earlier)", lateKey, lateBegin.UnixNano(), s.Meta.TimestampNano, time.Duration(uint64(lateBegin.UnixNano())-s.Meta.TimestampNano)), wit)
+						}
+						if !p.Native && e.TS < uint64(lateBegin.UnixNano()) {
+							res.Violate("capture-stamp-before-commit", fmt.Sprintf("d0[%s] was committed not before %d and is stamped %d", lateKey, lateBegin.UnixNano(), e.TS), wit)
+						}
+					}
+				}
+			}
+		}
 		prevTS = checkNameMeta(res, blobName, s, "", t0, t1, prevName, prevTS, wit)
 		res.Add("instance_names", fmt.Sprintf("%q", instRaw))
 		prevName = blobName
@@ -415,9 +454,9 @@ func runStatic(p c06Params, env *runner.Env, res *runner.Result, label string) {
 	for n := 1; n <= p.NDBI+8; n++ {
 		_, _ = lmdbx.Update(x.Env, func(txn *lmdb.Txn) error { // a local change, so that a dump is due in both modes
 			if p.Native {
-				return inst.NativePut(txn, "d0", []byte(fmt.Sprintf("zz-cancel-%03d", n)), uint64(time.Now().UnixNano()), false, []byte("v"))
+				return inst.NativePut(txn, "d0", []byte(fmt.Sprintf("zzcan%03d", n)), uint64(time.Now().UnixNano()), false, []byte("v"))
 			}
-			return lmdbx.Put(txn, "d0", 0, []byte(fmt.Sprintf("zz-cancel-%03d", n)), []byte("v"))
+			return lmdbx.Put(txn, "d0", 0, []byte(fmt.Sprintf("zzcan%03d", n)), []byte("v"))
 		})
 		before := map[string]bool{}
 		for _, nm := range b.Names() {
